@@ -245,6 +245,8 @@ def rule_eintr(ctx, rep):
     pat.require(n >= 6, "only %d futex waits found" % n)
 
 
+META["explanation"] += " " + 'Also (rounds 10-11): the set blocked around the registry / gp locks is a local filled by a dominating sigfillset(); every pthread_create of the libraries runs with all signals blocked in the creator.'
+
 RULES = [
     ("C19.eintr", rule_eintr),
     ("C19.safe", rule_safe),
